@@ -629,7 +629,14 @@ impl<SE: extensions::ShellExtensions> ExecuteInPipeline<SE> for ast::Command {
                 // Set up any additional redirects.
                 if let Some(redirects) = redirects {
                     for redirect in &redirects.0 {
-                        setup_redirect(&mut pipeline_context.shell, &mut params, redirect).await?;
+                        // As for a simple command, a redirection that cannot be set up fails
+                        // this command (status 1) rather than aborting the enclosing list.
+                        if let Err(e) =
+                            setup_redirect(&mut pipeline_context.shell, &mut params, redirect).await
+                        {
+                            writeln!(params.stderr(&pipeline_context.shell), "error: {e}")?;
+                            return Ok(ExecutionResult::general_error().into());
+                        }
                     }
                 }
 
